@@ -338,3 +338,276 @@ Proof.
   intros Hi. pose proof (inv_ext _ _ _ Hi X) as [].
   destruct s; constructor; simpl; auto.
 Qed.
+
+(* ---------------------------------------------------------------- every operation *)
+
+Lemma inv_set_buf w b' : Inv_n w -> length b' = length (w_buf w) -> Inv_n (set_buf w b').
+Proof. intros [] H. constructor; simpl; auto; lia. Qed.
+
+Lemma w_write_obs w pos data w' : w_write w pos data = Ok w' ->
+  length (w_buf w') = length (w_buf w) /\ w_limit w' = w_limit w.
+Proof.
+  intros H. apply w_write_inv in H as [b' [Hb ->]]. simpl. split; auto. eapply buf_write_length; eauto.
+Qed.
+
+Lemma inv_w_write w pos data w' : Inv_n w -> w_write w pos data = Ok w' -> Inv_n w'.
+Proof.
+  intros Hi H. apply w_write_inv in H as [b' [Hb ->]]. apply inv_set_buf; auto.
+  eapply buf_write_length; eauto.
+Qed.
+
+Lemma inv_w_modify w i f w' : Inv_n w -> w_modify w i f = Ok w' -> Inv_n w'.
+Proof.
+  unfold w_modify. intros Hi. destruct (nth_error (w_buf w) (N.to_nat i)); [|discriminate].
+  apply inv_w_write; auto.
+Qed.
+
+Lemma inv_clear_upper w : Inv_n w -> Inv_n (clear_upper w).
+Proof.
+  intros []. unfold clear_upper. destruct (w_edns w) eqn:E; [|constructor; auto].
+  constructor; simpl; auto. unfold resv in *. simpl. rewrite E in i_av0. exact i_av0.
+Qed.
+
+Lemma question_body_frame c0 qname qtype qclass w : pre c0 w ->
+  frame c0 w (let* (pr, w1) := write_unhinted_name qname w in
+              let w1 := if (w_qd w1 =? 0)%N then set_qname w1 pr else w1 in
+              let* (_, w2) := try_push_u16 qtype w1 in
+              try_push_u16 qclass w2).
+Proof.
+  intros Hp.
+  apply frame_bind; [assumption|apply frame_unhinted; assumption|].
+  intros pr w1 _ Hp1. cbn beta iota zeta.
+  assert (X : ext c0 w1 (if (w_qd w1 =? 0)%N then set_qname w1 pr else w1)).
+  { destruct (w_qd w1 =? 0)%N; [apply ext_set_qname|]; apply ext_refl; apply Hp1. }
+  assert (Hp2 := pre_ext _ _ _ Hp1 X).
+  cut (frame c0 (if (w_qd w1 =? 0)%N then set_qname w1 pr else w1)
+         (let* (_, w2) := try_push_u16 qtype (if (w_qd w1 =? 0)%N then set_qname w1 pr else w1) in
+          try_push_u16 qclass w2)).
+  { intros F. destruct (let* (_, w2) := try_push_u16 qtype _ in _) as [[a wz]|[e wz]|];
+      simpl in *; auto; eapply ext_trans; eauto. }
+  apply frame_bind; [assumption|apply frame_push_u16; assumption|].
+  intros [] w2 _ Hp3. apply frame_push_u16; auto.
+Qed.
+
+Definition step_good (d : dstate) (r : res werr (dstate * outcome)) : Prop :=
+  match r with
+  | Ok (d', RErr _) => obs_eq (d_w d) (d_w d')
+  | Ok (d', _) => Inv_n (d_w d')
+  | _ => True
+  end.
+
+Lemma of_R_good d r : Inv_n (d_w d) ->
+  (forall w', r = Ok w' -> Inv_n w') -> step_good d (of_R d r).
+Proof.
+  intros Hi H. destruct r as [w'|e|]; simpl; auto. apply obs_eq_refl.
+Qed.
+
+Lemma of_M_good {A} d (r : M A) : Inv_n (d_w d) ->
+  match r with Ok (_, w') => Inv_n w' | Err (_, w') => obs_eq (d_w d) w' | Panic => True end ->
+  step_good d (of_M d r).
+Proof. intros Hi H. destruct r as [[a w']|[e w']|]; simpl; auto. Qed.
+
+Lemma of_Mv_good d vec (r : M (option hvec)) : Inv_n (d_w d) ->
+  match r with Ok (_, w') => Inv_n w' | Err (_, w') => obs_eq (d_w d) w' | Panic => True end ->
+  step_good d (of_Mv d vec r).
+Proof. intros Hi H. destruct r as [[a w']|[e w']|]; simpl; auto. Qed.
+
+Lemma set_limit_inv l w w' : Inv_n w -> set_limit l w = Ok w' -> Inv_n w'.
+Proof.
+  intros [] . unfold set_limit.
+  destruct (w_limit w <=? l) eqn:E1.
+  - destruct (Nat.min l (length (w_buf w)) <? w_limit w) eqn:E2; [discriminate|].
+    intros H; inversion H; subst. apply Nat.ltb_ge in E2.
+    constructor; simpl; auto; try lia. unfold resv in *. simpl. lia.
+  - destruct (w_cursor w + w_limit w <? w_avail w); [discriminate|].
+    destruct (w_limit w <? Nat.max l (w_cursor w + w_limit w - w_avail w)) eqn:E3; [discriminate|].
+    destruct (w_avail w <? w_limit w - Nat.max l (w_cursor w + w_limit w - w_avail w)) eqn:E4; [discriminate|].
+    intros H; inversion H; subst. apply Nat.ltb_ge in E3. apply Nat.ltb_ge in E4.
+    constructor; simpl; auto; try lia. unfold resv in *. simpl. lia.
+Qed.
+
+Lemma retemplate_inv nb w w' : Inv_n w -> retemplate nb w = Ok w' -> Inv_n w'.
+Proof.
+  intros []. unfold retemplate.
+  destruct (length (w_buf w) <? w_cursor w); [discriminate|].
+  destruct (w_limit w <? w_avail w); [discriminate|].
+  destruct (length nb <? w_cursor w + (w_limit w - w_avail w)) eqn:E1; [discriminate|].
+  destruct (Nat.min (w_limit w) (length nb) <? w_limit w - w_avail w) eqn:E2; [discriminate|].
+  destruct (length nb <? w_cursor w) eqn:E3; [discriminate|].
+  intros H; inversion H; subst.
+  apply Nat.ltb_ge in E1. apply Nat.ltb_ge in E2. apply Nat.ltb_ge in E3.
+  constructor; simpl; auto; try lia.
+  - unfold resv in *. simpl. lia.
+  - rewrite app_length, firstn_length, skipn_length. lia.
+Qed.
+
+Theorem step_good_all d o : Inv_n (d_w d) -> step_good d (step d o).
+Proof.
+  intros Hi. pose proof (inv_pre _ Hi) as Hp.
+  destruct o; cbn [step].
+  - apply of_R_good; auto. intros w'. apply inv_w_write; auto.
+  - apply of_R_good; auto. intros w'. apply inv_w_modify; auto.
+  - apply of_R_good; auto. intros w'. apply inv_w_modify; auto.
+  - apply of_R_good; auto. intros w'. apply inv_w_modify; auto.
+  - apply of_R_good; auto. intros w'. apply inv_w_modify; auto.
+  - apply of_R_good; auto. intros w'. apply inv_w_modify; auto.
+  - apply of_R_good; auto. intros w'. apply inv_w_modify; auto.
+  - apply of_R_good; auto. intros w'. unfold set_rcode.
+    destruct (w_modify (d_w d) RCODE_BYTE _) as [w1|e|] eqn:E; simpl; try discriminate.
+    intros H; inversion H; subst. apply inv_clear_upper. eapply inv_w_modify; eauto.
+  - apply of_M_good; auto. unfold set_extended_rcode.
+    destruct (w_edns (d_w d)) as [e|] eqn:Ee; [|apply obs_eq_refl].
+    destruct (4095 <? v)%N; [apply obs_eq_refl|].
+    unfold lift. destruct (w_modify (d_w d) RCODE_BYTE _) as [w1|e1|] eqn:E; simpl; auto.
+    + pose proof (inv_w_modify _ _ _ _ Hi E) as [].
+      unfold w_modify in E. destruct (nth_error (w_buf (d_w d)) (N.to_nat RCODE_BYTE)); [|discriminate].
+      apply w_write_inv in E as [b' [Hb ->]].
+      constructor; simpl in *; auto. unfold resv in *. simpl in *. rewrite Ee in i_av0. exact i_av0.
+    + apply obs_eq_refl.
+  - (* add_question *)
+    apply of_M_good; auto. unfold add_question.
+    destruct (w_section (d_w d)); try apply obs_eq_refl.
+    destruct (checked_add16 (w_qd (d_w d)) 1); [|apply obs_eq_refl].
+    match goal with |- context [with_rollback ?f _] =>
+      pose proof (rollback_spec f (d_w d) Hi (question_body_frame _ n qtype qclass (d_w d) Hp)) as R;
+      destruct (with_rollback f (d_w d)) as [[[] w1]|[e w1]|] end; simpl in *; auto.
+    pose proof (inv_ext _ _ _ Hi R) as []. constructor; simpl; auto; lia.
+  - (* add rr *)
+    apply of_Mv_good; auto. unfold add_section_rr.
+    pose proof (frame_section_rr_body (w_cursor (d_w d)) s (resolve_hint (d_regs d) h) n ty class
+                  (ttl_from ttl) rdata (if vec then Some [] else None) (d_w d) Hp) as B.
+    unfold with_rollback.
+    destruct (let* (_, w1) := change_section s (d_w d) in _) as [[a w1]|[e w1]|]; simpl in *; auto.
+    destruct B. constructor; simpl; auto.
+  - apply of_Mv_good; auto. unfold add_section_rrset.
+    pose proof (frame_section_rrset_body (w_cursor (d_w d)) s (resolve_hint (d_regs d) h) n ty class
+                  (ttl_from ttl) rdatas (if vec then Some [] else None) (d_w d) Hp) as B.
+    unfold with_rollback.
+    destruct (let* (_, w1) := change_section s (d_w d) in _) as [[a w1]|[e w1]|]; simpl in *; auto.
+    destruct B. constructor; simpl; auto.
+  - apply of_R_good; auto. intros w'. apply set_limit_inv; auto.
+  - simpl. destruct Hi. constructor; auto.
+  - (* set_edns *)
+    apply of_M_good; auto. unfold set_edns.
+    destruct (w_edns (d_w d)) eqn:Ee; [apply obs_eq_refl|].
+    destruct (w_avail (d_w d) <? w_cursor (d_w d) + opt_record_size) eqn:E1; [apply obs_eq_refl|].
+    destruct (checked_add16 (w_ar (d_w d)) 1); [|apply obs_eq_refl].
+    apply Nat.ltb_ge in E1. destruct Hi. constructor; simpl; auto; try lia.
+    unfold resv in *. cbn [w_edns w_tsig set_edns_f set_avail set_limit_avail set_counts].
+    rewrite Ee in i_av0. lia.
+  - (* set_tsig *)
+    apply of_M_good; auto. unfold set_tsig.
+    destruct (w_tsig (d_w d)) eqn:Ee; [apply obs_eq_refl|].
+    destruct (w_avail (d_w d) <? w_cursor (d_w d) + _) eqn:E1; [apply obs_eq_refl|].
+    destruct (checked_add16 (w_ar (d_w d)) 1); [|apply obs_eq_refl].
+    apply Nat.ltb_ge in E1. destruct Hi. constructor; simpl; auto; try lia.
+    unfold resv in *. simpl. rewrite Ee in i_av0. lia.
+  - apply of_M_good; auto. unfold update_time_signed.
+    destruct (w_tsig (d_w d)) eqn:Ee; [|apply obs_eq_refl].
+    destruct Hi. constructor; simpl; auto. unfold resv in *. simpl. rewrite Ee in i_av0. exact i_av0.
+  - simpl. destruct Hi. constructor; simpl; auto; lia.
+  - apply of_R_good; auto. intros w'. apply retemplate_inv; auto.
+  - simpl. apply obs_eq_refl.
+  - destruct (getters (d_w d)); simpl; auto.
+Qed.
+
+(* ---------------------------------------------------------------- whole runs *)
+
+Lemma writer_new_inv buf limit w : writer_new buf limit = Ok w -> Inv_n w.
+Proof.
+  unfold writer_new.
+  destruct (Nat.min limit (length buf) <? header_size) eqn:E1; [discriminate|].
+  destruct (length buf <? header_size) eqn:E2; [discriminate|].
+  apply Nat.ltb_ge in E1. apply Nat.ltb_ge in E2.
+  assert (HL : length (repeat 0%N header_size ++ skipn header_size buf) = length buf)
+    by (rewrite app_length, repeat_length, skipn_length; lia).
+  generalize dependent (repeat 0%N header_size ++ skipn header_size buf). intros b0 HL H.
+  injection H as <-.
+  constructor; unfold resv; cbn [w_rr_start w_cursor w_avail w_limit w_buf w_edns w_tsig]; lia.
+Qed.
+
+Lemma step_inv d o d' r : Inv_n (d_w d) -> step d o = Ok (d', r) -> Inv_n (d_w d').
+Proof.
+  intros Hi E. pose proof (step_good_all d o Hi) as G. rewrite E in G. simpl in G.
+  destruct r; auto. eapply obs_eq_inv; eauto.
+Qed.
+
+Lemma run_inv : forall ops d d' outs alive, Inv_n (d_w d) ->
+  run d ops = Ok (d', outs, alive) -> Inv_n (d_w d').
+Proof.
+  induction ops as [|o rest IH]; intros d d' outs alive Hi; simpl.
+  - intros H; inversion H; subst; auto.
+  - destruct (step d o) as [[d1 r]|e|] eqn:E; simpl; try discriminate.
+    pose proof (step_inv _ _ _ _ Hi E) as Hi1.
+    destruct (stops o r); [intros H; inversion H; subst; auto|].
+    destruct (run d1 rest) as [[[d2 rs] al]|e|] eqn:E2; simpl; try discriminate.
+    intros H; inversion H; subst. eapply IH; eauto.
+Qed.
+
+Lemma unwrap_frame {A} c0 w (r : M A) w' : unwrap_w r = Ok w' -> frame c0 w r -> ext c0 w w'.
+Proof. destruct r as [[a w1]|[e w1]|]; simpl; try discriminate. intros H; inversion H; subst; auto. Qed.
+
+Lemma finish_gen_limit f w len b : Inv_n w -> finish_gen f w = Ok (len, b) ->
+  len <= w_limit w /\ length b = length (w_buf w).
+Proof.
+  intros Hi. unfold finish_gen.
+  destruct (w_write w (N.to_nat QDCOUNT_START) _) as [w1|e|] eqn:E1; cbn [bind]; try discriminate.
+  destruct (w_write w1 (N.to_nat ANCOUNT_START) _) as [w2|e|] eqn:E2; cbn [bind]; try discriminate.
+  destruct (w_write w2 (N.to_nat NSCOUNT_START) _) as [w3|e|] eqn:E3; cbn [bind]; try discriminate.
+  destruct (w_write w3 (N.to_nat ARCOUNT_START) _) as [w4|e|] eqn:E4; cbn [bind]; try discriminate.
+  pose proof (inv_w_write _ _ _ _ Hi E1) as I1. pose proof (inv_w_write _ _ _ _ I1 E2) as I2.
+  pose proof (inv_w_write _ _ _ _ I2 E3) as I3. pose proof (inv_w_write _ _ _ _ I3 E4) as I4.
+  assert (Hsame : w_limit w4 = w_limit w /\ length (w_buf w4) = length (w_buf w)).
+  { apply w_write_obs in E1 as [L1 M1]. apply w_write_obs in E2 as [L2 M2].
+    apply w_write_obs in E3 as [L3 M3]. apply w_write_obs in E4 as [L4 M4]. split; congruence. }
+  destruct Hsame as [HL HB]. rewrite <- HL, <- HB. clear E1 E2 E3 E4 I1 I2 I3 HL HB Hi.
+  destruct I4 as [h1 h2 h3 h4 h5]. unfold resv in h4.
+  (* OPT *)
+  assert (Hopt : forall w5,
+    match w_edns w4 with
+    | Some e => unwrap_w (add_rr HNone [] TYPE_OPT (e_udp e) (f (e_upper e * 16777216)%N) [] None
+                                 (set_avail w4 (w_avail w4 + opt_record_size)))
+    | None => Ok w4 end = Ok w5 ->
+    w_cursor w5 + match w_tsig w5 with Some t => t_reserved t | None => 0 end <= w_limit w4
+    /\ w_cursor w5 <= w_avail w5 /\ w_limit w5 = w_limit w4 /\ length (w_buf w5) = length (w_buf w4)
+    /\ w_avail w5 + match w_tsig w5 with Some t => t_reserved t | None => 0 end = w_limit w4).
+  { intros w5. destruct (w_edns w4) as [e|] eqn:Ee.
+    - intros U.
+      assert (Hp : pre 0 (set_avail w4 (w_avail w4 + opt_record_size)))
+        by (split; cbn [w_avail w_cursor set_avail set_limit_avail]; lia).
+      pose proof (unwrap_frame 0 _ _ _ U (frame_add_rr 0 _ _ _ _ _ _ _ _ Hp)) as X.
+      pose proof (x_cav _ _ _ X). pose proof (x_av _ _ _ X). pose proof (x_lim _ _ _ X).
+      pose proof (x_len _ _ _ X). rewrite (x_tsig _ _ _ X).
+      cbn [w_avail w_limit w_tsig w_buf w_cursor set_avail set_limit_avail] in *. repeat split; lia.
+    - intros U; inversion U; subst. repeat split; lia. }
+  destruct (match w_edns w4 with Some e => _ | None => Ok w4 end) as [w5|e|] eqn:E5; simpl; try discriminate.
+  destruct (Hopt w5 eq_refl) as [A1 [A2 [A3 [A4 A5]]]].
+  destruct (w_tsig w5) as [t|] eqn:Et.
+  - destruct (unwrap_w _) as [w6|e|] eqn:E6; simpl; try discriminate.
+    intros H; inversion H; subst.
+    assert (Hp : pre 0 (set_avail (set_tsig_f w5 None) (w_avail w5 + t_reserved t)))
+      by (split; cbn [w_avail w_cursor set_avail set_limit_avail set_tsig_f]; lia).
+    pose proof (unwrap_frame 0 _ _ _ E6 (frame_add_rr 0 _ _ _ _ _ _ _ _ Hp)) as X.
+    pose proof (x_cav _ _ _ X). pose proof (x_av _ _ _ X). pose proof (x_len _ _ _ X).
+    cbn [w_avail w_limit w_tsig w_buf w_cursor set_avail set_limit_avail set_tsig_f] in *. split; lia.
+  - intros H; inversion H; subst. split; lia.
+Qed.
+
+Theorem run_writer_limit f buf limit ops rr len b :
+  run_writer_gen f buf limit ops = Ok rr -> rr_final rr = Some (len, b) ->
+  (forall w l b', Inv_n w -> f w = Ok (l, b') -> l <= w_limit w /\ length b' = length (w_buf w)) ->
+  exists w0 d outs, writer_new buf limit = Ok w0 /\ run (mkD w0 []) ops = Ok (d, outs, true)
+    /\ Inv_n (d_w d) /\ len <= w_limit (d_w d) /\ w_limit (d_w d) <= length b.
+Proof.
+  unfold run_writer_gen. intros H Hf Hfin.
+  destruct (writer_new buf limit) as [w0|e|] eqn:E0; simpl in H; try discriminate.
+  destruct (run (mkD w0 []) ops) as [[[d outs] alive]|e|] eqn:E1; simpl in H; try discriminate.
+  pose proof (run_inv ops (mkD w0 []) d outs alive (writer_new_inv _ _ _ E0) E1) as Hi.
+  destruct alive.
+  - destruct (f (d_w d)) as [[l b']|e|] eqn:E2; simpl in H; try discriminate.
+    inversion H; subst. simpl in Hf. inversion Hf; subst.
+    destruct (Hfin _ _ _ Hi E2) as [L1 L2].
+    exists w0, d, outs. split; [reflexivity|]. split; [exact E1|]. split; [exact Hi|].
+    split; [exact L1|]. rewrite L2. apply Hi.
+  - inversion H; subst. simpl in Hf. discriminate.
+Qed.
